@@ -46,20 +46,20 @@ type parentRef struct {
 }
 
 type State struct {
-	pc     string
-	cells  map[*ssa.Alloc]Val
-	heap   map[string]string
-	epoch  string
+	pc    string
+	cells map[*ssa.Alloc]Val
+	heap  map[string]string
+	epoch string
 	// parents: set by a join of states with different epochs; a heap component that no incoming state had
 	// materialised is, when first read, the merge of the incoming states' (lazily created) terms - not a fresh constant
 	parents []parentRef
-	ghosts map[string]Val
-	ac     string // allocation counter
-	defers []deferEntry
-	held   map[string]string // lock ghost: key -> Bool term
-	unpub  map[string]bool   // refs of structs allocated on this path whose pointer has not been handed to anything yet
-	mapVer string            // version of all map contents (bumped by map updates and unknown calls)
-	regs   map[ssa.Value]Val // SSA registers defined on the way to this state
+	ghosts  map[string]Val
+	ac      string // allocation counter
+	defers  []deferEntry
+	held    map[string]string // lock ghost: key -> Bool term
+	unpub   map[string]bool   // refs of structs allocated on this path whose pointer has not been handed to anything yet
+	mapVer  string            // version of all map contents (bumped by map updates and unknown calls)
+	regs    map[ssa.Value]Val // SSA registers defined on the way to this state
 }
 
 func (s *State) clone() *State {
